@@ -312,7 +312,7 @@ impl PathSliceList {
                                     next_need_comma_sep = true;
                                 }
                                 None => {
-                                    let arg = format!("s{}", spread_args.len());
+                                    let arg = format!("_s{}", spread_args.len());
                                     write!(prepend, "{}===true||", arg)?;
                                     write!(s, "}},X({}),{{", arg)?;
                                     spread_args.push(sub_s);
@@ -324,7 +324,7 @@ impl PathSliceList {
                     }
                     if need_object_assign {
                         let params: Vec<String> =
-                            (0..spread_args.len()).map(|i| format!("s{}", i)).collect();
+                            (0..spread_args.len()).map(|i| format!("_s{}", i)).collect();
                         write!(ret, "(({})=>", params.join(","))?;
                     }
                     if is_template_data {
